@@ -69,6 +69,9 @@ func applyOpts[T proto.Message](mk func() T, opts []Opt) (T, bool, bool) {
 	}
 	o := mk()
 	for _, op := range opts {
+		if op.IsCustom {
+			continue
+		}
 		if op.Set == nil {
 			return zero, false, false
 		}
